@@ -13,7 +13,12 @@ use crate::{
 };
 
 /// Default receive buffer size
+#[cfg(not(feature = "verif-small-buffer"))]
 const DEFAULT_BUFFER_CAPACITY: usize = 4096;
+
+/// Verification hook: a tiny receive buffer, so that buffer growth is reached with short streams.
+#[cfg(feature = "verif-small-buffer")]
+const DEFAULT_BUFFER_CAPACITY: usize = 8;
 
 /// A **blocking** connection to an MPD server.
 #[derive(Debug)]
